@@ -201,7 +201,7 @@ SMALL_DIM = 4
 def make_ref(kind):
     if kind in ('vec', 'small'): return RefSeq(None)
     if kind == 'svec': return RefSeq(SVEC_CAP)
-    if kind == 'arr': return RefArr(ARR_N)
+    if kind in ('arr', 'tuple', 'tuplev2'): return RefArr(ARR_N)
     raise ValueError(kind)
 
 
@@ -358,7 +358,7 @@ def in_domain(kind, ops):
         return not has_uninit_growth(ops) and not has_alias_push(ops) and not any(n == 'ctorN' for n, a in ops)
     if kind == 'svec':
         return not svec_oversize_ctor(ops) and not svec_growing_resize(ops)
-    if kind == 'arr':
+    if kind in ('arr', 'tuple', 'tuplev2'):
         return True
     if kind == 'small':
         return not small_growth(ops) and not small_ever_dynamic(ops) and not has_alias_push(ops)
@@ -541,6 +541,16 @@ def cases_for(kind, elem, ops, tags):
         yield Case(req, HARNESS, dom=False, oracle=None, model=True, nontrivial=nt, tags=['correspondence-only', 'kind=' + kind], cmp=cmp_answers)
 
 
+def san_case(kind, elem, ops, tags):
+    """the same history under ASan/UBSan against the reference only"""
+    e = kind in ('maybe', 'either')
+    req = '%s kind=%s elem=%s ops=%s' % ('ehist' if e else 'hist', kind, elem, fmt_ops(ops))
+    dom = in_domain_e(kind, elem, ops) if e else in_domain(kind, ops)
+    orc = oracle_either(ops, kind) if e else oracle_seq(ops, kind)
+    return Case(req, 'h_c19_san', dom=dom, oracle=orc, model=False, nontrivial=len(ops) >= 3,
+                tags=list(tags) + ['san', 'kind=' + kind], cmp=cmp_answers)
+
+
 def ecases_for(kind, elem, ops, tags):
     req = 'ehist kind=%s elem=%s ops=%s' % (kind, elem, fmt_ops(ops))
     dom = in_domain_e(kind, elem, ops)
@@ -609,11 +619,15 @@ def rand_ehistory(rng, L, kind):
 
 
 def harness_specs(tier):
-    return [dict(name='h_c19', src='h_c19.cpp', flavour='fast', extra=['-fno-lifetime-dse'])]
+    return [dict(name='h_c19', src='h_c19.cpp', flavour='fast', extra=['-fno-lifetime-dse']),
+            # ASan + UBSan build: blocks go straight back to the sanitizer allocator (use-after-free, double free and
+            # heap overflow abort the request -> `crash:asan:...`), accesses beyond fixed buffers are not guarded
+            dict(name='h_c19_san', src='h_c19.cpp', flavour='san', extra=['-DC19_SAN', '-fno-lifetime-dse'])]
 
 
 def gen(tier, rng):
     quick = tier == 'quick'
+    yield from gen_san(tier, rng)
     # known-finding witnesses first
     for kind, elem, ops in WITNESSES:
         yield from cases_for(kind, elem, parse_ops(ops), ['witness'])
@@ -671,6 +685,11 @@ def gen(tier, rng):
     for ops in enum_histories(4 if quick else 6, two=True, kind='arr', resizes=(), sized=(), variadic=(2, 3), nopush=True):
         n2 += 1
         yield from cases_for('arr', 'double' if n2 % 2 else 'int', ops, ['exhaustive-2obj'])
+    # utl::tuple<T,T,T> / utl::tuplev2<T,T,T> ------------------------------------------------------
+    n2 = 0
+    for ops in enum_histories(4 if quick else 6, two=True, kind='tuple', resizes=(), sized=(), variadic=(3,), nopush=True):
+        n2 += 1
+        yield from cases_for('tuple' if n2 % 2 else 'tuplev2', ('int', 'tracked', 'double')[n2 % 3], ops, ['exhaustive-2obj'])
 
 
 EWITNESSES = [
@@ -682,6 +701,33 @@ EWITNESSES = [
     ('either', 'tracked', 'mkL:0:5;copy:1:0'),
     ('either', 'tracked', 'mkL:0:5;setR:0:3;mkL:1:7;assign:0:1'),
 ]
+
+def gen_san(tier, rng):
+    quick = tier == 'quick'
+    for kind, elem, ops in WITNESSES:
+        yield san_case(kind, elem, parse_ops(ops), ['witness'])
+    for kind, elem, ops in EWITNESSES:
+        yield san_case(kind, elem, parse_ops(ops), ['witness'])
+    # aliasing pushes abort the sanitizer build (heap-use-after-free): only a few of them, each costs a restart
+    for ops in enum_histories(4 if quick else 5, two=False, nopushat=True):
+        yield san_case('vec', 'int', ops, ['exhaustive-1obj'])
+    for ops in enum_histories(4 if quick else 5, two=False, kind='small', resizes=(0, 3, 4, 6), sized=(2, 6), variadic=(3, 5), nopushat=True):
+        yield san_case('small', 'int', ops, ['exhaustive-1obj'])
+    for ops in enum_histories(4, two=False, kind='svec', resizes=(0, 1, 4, 6), sized=(2, 7), variadic=(2, 4)):
+        yield san_case('svec', 'int', ops, ['exhaustive-1obj'])
+    for k in range(150 if quick else 2000):
+        L = rng.choice([6, 12, 30, 80, 200])
+        e = rng.choice(['int', 'double'])
+        h = rand_history(rng, L)
+        yield san_case('vec', e, h if k % 8 == 0 else [o for o in h if o[0] != 'pushAt'], ['random'])
+        yield san_case('vec', e, rand_domain_history(rng, L), ['random-domain'])
+        yield san_case('svec', e, rand_history(rng, L, cap=SVEC_CAP, maxn=7, vmax=4), ['random'])
+        yield san_case('small', e, [o for o in rand_history(rng, L, maxn=7, vmax=6) if o[0] != 'pushAt'], ['random'])
+        yield san_case('small', e, rand_domain_history(rng, L, vmax=4, maxlen=SMALL_DIM), ['random-domain'])
+        for kind in ('maybe', 'either'):
+            yield san_case(kind, rng.choice(['int', 'double', 'tracked']), rand_ehistory(rng, L, kind), ['random'])
+        yield san_case('arr', e, [o for o in rand_domain_history(rng, min(L, 30), vmax=3) if o[0] not in ('push', 'resize')], ['random'])
+
 
 WITNESSES = [
     ('vec', 'int', 'ctor:0;push:0:1;push:0:2;push:0:3;resize:0:1;resize:0:3'),
